@@ -42,11 +42,31 @@ func init() {
 	}, func(e *Env) {
 		e.RRoleFilter()
 		e.RResolvePath()
+		e.RCarry()
 		e.RResolverFile()
 		e.RResolverClauses()
 		e.RResolverErrorsFirst()
 		e.RErr(e.pkgs(load.PkgDecorator, load.PkgGoast, load.PkgGotypes), 85)
 		e.RAssert()
+	})
+	register("C10", Meta{
+		Explanation: "Static necessary conditions of 'moved code keeps what it refers to', decided on dst's source — the behaviour itself (the output type-checks, every identifier denotes the same object) needs a type checker over output programs and is NOT decided. What is decided is that a reference is carried as (package path, object name) and nothing else, from the file it was read in to the file it is printed in: (1) recording: the identifier positions that may be resolved are exactly the non-declaring ones in both converters; resolvePath returns the vendor-stripped resolver answer (the local package's path too when ResolveLocalPath asks for it); decorate's Ident case and decorateSelectorExpr store that answer in Path and the selected object's name in Name, on every path that returns the identifier (R-CARRY), whatever name, alias or dot-import the source file used; the two decorator resolvers map a package-name qualifier to the imported package's path and any other use to its declaring package (their path-condition specifications); (2) carrying: Clone copies Name and Path of every Ident and shares nothing; (3) re-binding in the target file: updateImports' scan reaches every identifier of the file being restored and records each non-empty non-local Path as required, every required path without a spec gets one, names are chosen so that no two paths share one (the conflict test consults the set the names go into), the name used in code and the alias written to the spec come from one call, restoreIdent qualifies with the target file's name for n.Path (bare for the local path and for dot-imports) and builds Sel from n.Name, the path-to-name table has one writer and one reader, and the import declaration stays well-formed (parentheses follow the spec count).",
+		NotCovered:  []string{"that the printed target file type-checks (needs go/types on output programs)", "that each identifier denotes the same object after the move (depends on the resolver's accuracy on the source program and on the declarations visible in the target)", "shadowing of a chosen import name by a declaration of the target file (excluded by the property's proviso)", "identifiers that refer to unexported or file-local objects of the source package"},
+	}, func(e *Env) {
+		e.RRoleFilter()
+		e.RResolvePath()
+		e.RCarry()
+		e.RResolverClauses()
+		e.RClone()
+		e.RDiscovery()
+		e.RCover("walk", e.dstNodeNames(), true)
+		e.RWalk()
+		e.RUniqueNames()
+		e.RAddsEveryMissing()
+		e.RAliasFlow()
+		e.RPackageNamesOwnership()
+		e.RRestoreIdent()
+		e.RParenSync()
 	})
 	_ = strings.TrimSpace
 }
